@@ -3,11 +3,14 @@ package main
 // C14 — gff.Build / gff.Parse / gff.Write / gff.Read / Feature.GetSequence on the real code.
 
 import (
+	"encoding/hex"
 	"fmt"
 	"os"
 	"path/filepath"
 	"sort"
 	"strconv"
+	"strings"
+	"unicode/utf8"
 	"verifharness/runner"
 
 	"github.com/TimothyStiles/poly"
@@ -47,13 +50,28 @@ func c14Fields(s poly.Sequence) []string {
 	return out
 }
 
+// safeFields keeps a reply line valid UTF-8 whatever the code under test returned (a corrupted buffer
+// may be cut inside a multi-byte letter): an invalid field is replaced by "invalid-utf8:" + hex.
+func safeFields(fs []string) []string {
+	for i, f := range fs {
+		if !utf8.ValidString(f) {
+			fs[i] = "invalid-utf8:" + hex.EncodeToString([]byte(f))
+		}
+	}
+	return fs
+}
+
 func c14GetSeq(f poly.Feature) (st, v string) {
 	defer func() {
 		if p := recover(); p != nil {
 			st, v = "panic", ""
 		}
 	}()
-	return "ok", f.GetSequence()
+	v = f.GetSequence()
+	if !utf8.ValidString(v) { // a slice that cuts a multi-byte letter: keep the reply line valid UTF-8
+		return "invalid-utf8", hex.EncodeToString([]byte(v))
+	}
+	return "ok", v
 }
 
 // c14Parse runs gff.Parse with panic recovery: ("ok", fields...) or ("panic").
@@ -124,6 +142,14 @@ func init() {
 			return nil, fmt.Errorf("bad request: %d fields used of %d", p, len(a))
 		}
 		text := gff.Build(s)
+		// hold the output across a Build of a different record: the bytes returned for s must stay s's
+		var other poly.Sequence
+		other.Meta.Name, other.Meta.RegionStart, other.Meta.RegionEnd = "held-output-check", 1, 3*len(s.Sequence)+11
+		other.Sequence = strings.Repeat("NNX", len(s.Sequence)+4)
+		of := poly.Feature{Name: "held", Source: "other", Type: "region", Attributes: map[string]string{"ID": "other-record"}}
+		of.SequenceLocation.End = 3
+		other.AddFeature(&of)
+		_ = gff.Build(other)
 		parsed := c14Parse(text)
 		c14Counter++
 		path := filepath.Join(c14TmpDir(), fmt.Sprintf("c14-%d-%d.gff", os.Getpid(), c14Counter))
@@ -137,7 +163,7 @@ func init() {
 		}
 		out := []string{string(text)}
 		out = append(out, parsed...)
-		return append(out, rw), nil
+		return safeFields(append(out, rw)), nil
 	})
 	// gff_parse text  → Parse(text) as status+fields, then rw-same/rw-diff for Read of the same text from a file
 	runner.Register("gff_parse", func(a []string) ([]string, error) {
@@ -149,6 +175,6 @@ func init() {
 		}
 		viaFile := c14Read(path)
 		_ = os.Remove(path)
-		return append(parsed, sameFields(parsed, viaFile)), nil
+		return safeFields(append(parsed, sameFields(parsed, viaFile))), nil
 	})
 }
